@@ -222,7 +222,7 @@ def build_emulated(sources: List[str], exe: str, include_dirs: List[str], extra_
     inc = [x for d in include_dirs for x in ("-I", d)]
     for k, src in enumerate(sources):
         ll = os.path.join(workdir, f"beemu-{k}-{os.path.basename(src)}.ll")
-        cmd = ["clang-14", "-O0", "-Xclang", "-disable-O0-optnone", "-fno-builtin", "-S", "-emit-llvm", "-std=gnu99", "-w"] + ([] if force_le else BE_CPP_FLAGS) + DRV_FLAGS + list(extra_flags) + inc + [src, "-o", ll]
+        cmd = ["clang", "-O0", "-Xclang", "-disable-O0-optnone", "-fno-builtin", "-S", "-emit-llvm", "-std=gnu99", "-w"] + ([] if force_le else BE_CPP_FLAGS) + DRV_FLAGS + list(extra_flags) + inc + [src, "-o", ll]
         p = subprocess.run(cmd, capture_output=True, text=True, timeout=600)
         if p.returncode != 0:
             raise RuntimeError("clang -emit-llvm failed: " + (p.stdout + p.stderr)[-3000:])
@@ -232,7 +232,7 @@ def build_emulated(sources: List[str], exe: str, include_dirs: List[str], extra_
         for a, b in stats.items():
             total[a] = total.get(a, 0) + b
         lls.append(ll)
-    cmd = ["clang-14", backend_opt, "-w"] + list(extra_flags) + inc + lls + list(native_sources) + ["-o", exe]
+    cmd = ["clang", backend_opt, "-w"] + list(extra_flags) + inc + lls + list(native_sources) + ["-o", exe]
     p = subprocess.run(cmd, capture_output=True, text=True, timeout=600)
     if p.returncode != 0:
         raise RuntimeError("clang link of rewritten IR failed: " + (p.stdout + p.stderr)[-3000:])
